@@ -252,7 +252,8 @@ def self_check_ctl(ctx, cases):
     for c, q, o in zip(cases, reqs, outs):
         ob = o.get("obs", {})
         if not ob.get("ok"):
-            raise ToolError(f"rendered control-flow program does not parse: {ob.get('err') or ob}\n{q['src']}")
+            rejects[c["id"]] = ob.get("err") or ob
+            continue
         real = render.norm_real(ob["ast"]["decls"][2]["body"])
         want = render.to_project_block(c["ast"])
         if real != want:
